@@ -60,7 +60,7 @@ def framing(s, ver, h):
     if pads and set(blocks[-1][1]) - {"0"}:
         pass  # pad data content is not constrained by the property
     nonpad = [b for b in blocks if b[0] != "PB"]
-    if nonpad != list(h.blocks._blocks.items()):
+    if nonpad != [(k, h.blocks[k]) for k in h.blocks]:
         return "optional blocks differ from the header's blocks (ids, data or order)"
     fixed = h.version_id + s[1:5] + h.key_usage + h.algorithm + h.mode_of_use + h.version_num + h.exportability + s[12:14] + h.reserved
     if s[:16] != fixed:
